@@ -1,37 +1,44 @@
-(* C06 - Sync converges on the best chain peers offer, in every configuration.
+(* C06 - Sync converges on the best chain peers offer, in every configuration.      (models mirror /repo HEAD: after e6f7150, 1572875)
    Only the property theorems; each is closed by `exact`.
 
    Models: BHS.SyncNode (conformant node, locator, cursors), BHS.SyncDefault (SyncManager + request filter),
    BHS.SyncExp (experimental peer), BHS.SyncSys (closed system: engine + nodes + messages in flight + script),
    ingestion = BHS.Chain.add (C01).  Spec oracle on the implementation's outputs: BHS.SyncSpec.spec_converged.
 
-   FULL STATEMENT (not provable for the code as it is - see the three `_refuted` theorems, known findings):
+   FULL STATEMENT (not provable for the code as it is - see C06_lagging_sync_peer_refuted, a known finding):
      for every configuration (checkpoints on/off, any consistent list), every set of conformant peers of which one honest
      peer stays reachable, every schedule, fault sequence, announcement pattern and both engines, the system reaches a
      quiescent state whose store holds the honest peer's best chain and whose tip carries the greatest work on offer.
-   PROVED:
-     C06_catchup_linear        default engine, checkpoints enabled, ONE honest peer, the store's longest chain a prefix of
-                               its chain C (any Valid store, stale forks and orphans allowed), any sorted checkpoint list
-                               consistent with C (none, one, several, one at the tip), any reply cap >= 1, enough fuel
-                               (|C| - k + 1 deliveries): quiescent, longest chain = C, tip = last C; every step sends exactly
-                               one request (never filtered), locator head = the tip, stop = next checkpoint / zero.
-     C06_catchup_linear_exp    the same for the experimental engine and its single outbound peer (the step that reaches the
-                               peer's height sends sendheaders instead of a further request; no duplicate filter exists there).
-     C06_prefix_store_good     genesis + first k headers of C is such a store.
+   PROVED (unbounded):
+     C06_catchup_linear        default engine, checkpoints ENABLED OR DISABLED (one theorem over the effective list
+                               eff_cps = [] when disabled; corollaries _enabled / _disabled), ONE honest peer, the store's
+                               longest chain a prefix of its chain C (any Valid store, stale forks and orphans allowed), any
+                               sorted checkpoint list consistent with C (none, one, several, one at the tip), any reply cap >= 1,
+                               |C| - k + 1 deliveries of fuel: quiescent, longest chain = C, tip = last C; every step sends
+                               exactly one request (never filtered), locator head = the tip, stop = next checkpoint / zero;
+                               the system ends in the idle state (idle_ok) from which the announcement theorems start.
+     C06_announce_inv          from the idle state the lone (sync) peer's chain grows by 1 <= |new| <= cap headers announced by
+     C06_announce_headers      inv resp. by a headers message: the inv's getheaders (stop = announced hash) is NOT filtered,
+                               the system becomes quiescent with longest chain = C ++ new, and is idle again (so the theorem
+                               applies to any number of successive announcements).
+     C06_catchup_linear_exp    linear catch-up for the experimental engine and its single outbound peer.
      C06_fork_one_reply        after any reply the tip carries at least the work of every connected stored header (a branch that
                                overtakes within one reply is adopted); C06_stops_when_no_longest: the stated caveat.
-     C06_multi_partial         safety half for ALL schedules / peers / choices (see SyncMultiProofs); convergence for
-                               several peers, stalls and disconnects is NOT proved.
-   REFUTED (vm_compute witnesses on the faithful model; the real code agrees on the same scenarios, corpus/C06):
-     C06_disable_checkpoints_refuted, C06_single_peer_announce_refuted, C06_lagging_sync_peer_refuted. *)
+     C06_multi_partial         safety half for ALL schedules / peers / choices; convergence for several peers, stalls and
+                               disconnects is NOT proved.
+   HISTORY: C06_disable_checkpoints_refuted (disable_checkpoints disconnected every answering peer) and
+     C06_single_peer_announce_refuted (the sync peer's inv was dropped by the duplicate-request filter) were theorems about the
+     code before /repo e6f7150 and 1572875; both defects are repaired, the statements are now C06_catchup_linear_disabled
+     and C06_announce_inv, the old witnesses stay in corpus/C06 (a regression is a VIOLATION).
+   REFUTED (vm_compute witness on the faithful model; the real code agrees, corpus/C06): C06_lagging_sync_peer_refuted. *)
 From Coq Require Import ZArith NArith List Bool.
 From BHS Require Import Work Store Chain ChainSpec ChainAdd ChainMain SyncNode SyncDefault SyncExp SyncSys SyncSpec
-     SyncC07Proofs SyncC06Proofs SyncC06ExpProofs SyncMultiProofs.
+     SyncC07Proofs SyncC06Proofs SyncC06ExpProofs SyncMultiProofs SyncAnnounceProofs.
 Import ListNotations.
 Open Scope Z_scope.
 
 Theorem C06_catchup_linear : forall cfg gid C p cap res k s hints fuel,
-  c_disable cfg = false -> good_chain (c_forb cfg) gid C -> cps_ok gid C (c_cps cfg) -> sorted (c_cps cfg) ->
+  good_chain (c_forb cfg) gid C -> cps_ok gid C (eff_cps cfg) -> sorted (eff_cps cfg) ->
   (1 <= cap)%nat -> (k <= length C)%nat -> Good gid C k s -> (length C - k + 1 <= fuel)%nat ->
   exists y1 t1 y2 t2,
     y_cmd (y_init cfg gid s [(p, node0 C cap res)] hints) (CConnect p) = (y1, t1) /\
@@ -40,9 +47,61 @@ Theorem C06_catchup_linear : forall cfg gid C p cap res k s hints fuel,
     (exists tip t, Inv2 (d_store (y_eng y2)) tip /\ ids (chain (d_store (y_eng y2)) tip) = rev (cids gid C) /\
                    tipB (d_store (y_eng y2)) = Some t /\ id t = last (cids gid C) gid) /\
     (exists ev es st, t1 = [(ev, es, st)] /\ entry_ok p (EHeaders p [], es, st) /\ es <> []) /\
-    Forall (entry_ok p) t2.
+    Forall (entry_ok p) t2 /\
+    idle_ok cfg gid C p cap res y2.
 Proof. exact catchup_linear. Qed.
 
+Theorem C06_catchup_linear_enabled : forall cfg gid C p cap res k s hints fuel,
+  c_disable cfg = false -> good_chain (c_forb cfg) gid C -> cps_ok gid C (c_cps cfg) -> sorted (c_cps cfg) ->
+  (1 <= cap)%nat -> (k <= length C)%nat -> Good gid C k s -> (length C - k + 1 <= fuel)%nat ->
+  exists y1 t1 y2 t2,
+    y_cmd (y_init cfg gid s [(p, node0 C cap res)] hints) (CConnect p) = (y1, t1) /\
+    y_cmd y1 (CRun fuel) = (y2, t2) /\ quiescent y2 = true /\
+    (exists tip t, Inv2 (d_store (y_eng y2)) tip /\ ids (chain (d_store (y_eng y2)) tip) = rev (cids gid C) /\
+                   tipB (d_store (y_eng y2)) = Some t /\ id t = last (cids gid C) gid) /\
+    (exists ev es st, t1 = [(ev, es, st)] /\ entry_ok p (EHeaders p [], es, st) /\ es <> []) /\
+    Forall (entry_ok p) t2 /\ idle_ok cfg gid C p cap res y2.
+Proof. exact catchup_linear_enabled. Qed.
+
+(* p2p.disable_checkpoints = true: no hypothesis about the configured checkpoint list *)
+Theorem C06_catchup_linear_disabled : forall cfg gid C p cap res k s hints fuel,
+  c_disable cfg = true -> good_chain (c_forb cfg) gid C ->
+  (1 <= cap)%nat -> (k <= length C)%nat -> Good gid C k s -> (length C - k + 1 <= fuel)%nat ->
+  exists y1 t1 y2 t2,
+    y_cmd (y_init cfg gid s [(p, node0 C cap res)] hints) (CConnect p) = (y1, t1) /\
+    y_cmd y1 (CRun fuel) = (y2, t2) /\ quiescent y2 = true /\
+    (exists tip t, Inv2 (d_store (y_eng y2)) tip /\ ids (chain (d_store (y_eng y2)) tip) = rev (cids gid C) /\
+                   tipB (d_store (y_eng y2)) = Some t /\ id t = last (cids gid C) gid) /\
+    (exists ev es st, t1 = [(ev, es, st)] /\ entry_ok p (EHeaders p [], es, st) /\ es <> []) /\
+    Forall (entry_ok p) t2 /\ idle_ok cfg gid C p cap res y2.
+Proof. exact catchup_linear_disabled. Qed.
+
+(* ---- announcements of the lone sync peer after the initial sync ---- *)
+Theorem C06_announce_inv : forall cfg gid C new p cap rest,
+  good_chain (c_forb cfg) gid (C ++ new) -> cps_ok gid C (eff_cps cfg) -> sorted (eff_cps cfg) ->
+  (1 <= cap)%nat -> new <> [] -> (length new <= cap)%nat -> c_cps cfg <> [] ->
+  forall y fuel, idle_ok cfg gid C p cap (new ++ rest) y ->
+  (forall h, In h new -> by_hash (d_store (y_eng y)) (s_id h) = None) ->
+  (length new + 1 <= fuel)%nat ->
+  exists y1 y2 ev st1 loc t2,
+    y_cmd y (CAnnounce p (length new) true) = (y1, []) /\
+    y_cmd y1 (CRun (S fuel)) = (y2, (ev, [GetHeaders p loc (s_id (last new (ex_sub 0 0 0)))], st1) :: t2) /\
+    ev = EInv p (map (fun h => (true, s_id h)) new) /\ hd_error loc = Some (tipid gid C (length C)) /\
+    quiescent y2 = true /\
+    Good gid (C ++ new) (length (C ++ new)) (d_store (y_eng y2)) /\ idle_ok cfg gid (C ++ new) p cap rest y2 /\ Forall (entry_ok p) t2.
+Proof. exact announce_inv. Qed.
+
+Theorem C06_announce_headers : forall cfg gid C new p cap rest,
+  good_chain (c_forb cfg) gid (C ++ new) -> cps_ok gid C (eff_cps cfg) -> sorted (eff_cps cfg) ->
+  (1 <= cap)%nat -> new <> [] -> (length new <= cap)%nat ->
+  forall y fuel, idle_ok cfg gid C p cap (new ++ rest) y ->
+  (forall h, In h new -> by_hash (d_store (y_eng y)) (s_id h) = None) ->
+  (length new + 1 <= fuel)%nat ->
+  exists y1 y2 t2,
+    y_cmd y (CAnnounce p (length new) false) = (y1, []) /\
+    y_cmd y1 (CRun fuel) = (y2, t2) /\ quiescent y2 = true /\
+    Good gid (C ++ new) (length (C ++ new)) (d_store (y_eng y2)) /\ idle_ok cfg gid (C ++ new) p cap rest y2 /\ Forall (entry_ok p) t2.
+Proof. exact announce_headers. Qed.
 
 Theorem C06_catchup_linear_exp : forall cfg gid C p cap res k s fuel,
   good_chain (x_forb cfg) gid C -> cps_ok gid C (x_cps cfg) -> sorted (x_cps cfg) ->
@@ -101,25 +160,25 @@ Proof. exact good_prefix. Qed.
 
 (* the hypotheses are satisfiable *)
 Theorem C06_catchup_example :
-  good_chain (c_forb exCfg) 1 exC /\ cps_ok 1 exC (c_cps exCfg) /\ sorted (c_cps exCfg) /\
+  good_chain (c_forb exCfg) 1 exC /\ cps_ok 1 exC (eff_cps exCfg) /\ sorted (eff_cps exCfg) /\
   Good 1 exC 1 (run_from (c_forb exCfg) (init 1 (ex_pl 486604799)) (firstn 1 exC)).
 Proof. exact ex_catchup_hyps. Qed.
 
-Theorem C06_disable_checkpoints_refuted :
-  let cfg := {| c_cps := []; c_disable := true; c_forb := []; c_now := 0 |} in
-  let y0 := y_init cfg 1 (init 1 (ex_pl 486604799)) [(7%N, node0 exC 2000 [])] [] in
+(* the two repaired situations, on the model of the repaired code *)
+Theorem C06_disabled_now_syncs_example :
+  let cfg := {| c_cps := [(1, 77%N)]; c_disable := true; c_forb := []; c_now := 0 |} in
+  let y0 := y_init cfg 1 (init 1 (ex_pl 486604799)) [(7%N, node0 exC 2 [])] [] in
   let '(y, ts) := y_run y0 [CConnect 7; CRun 20] in
-  good_chain [] 1 exC /\ final_tip y = Some 1%N /\ In (Disconnect 7) (all_effs ts) /\ quiescent y = true.
-Proof. exact disable_checkpoints_refuted. Qed.
+  final_tip y = Some 6%N /\ ~ In (Disconnect 7) (all_effs ts) /\ quiescent y = true.
+Proof. exact ex_disabled_now_syncs. Qed.
 
-Theorem C06_single_peer_announce_refuted :
+Theorem C06_announce_now_followed_example :
   let cfg := {| c_cps := [(2, 3%N)]; c_disable := false; c_forb := []; c_now := 1800000000 |} in
   let y0 := y_init cfg 1 (init 1 (ex_pl 486604799)) [(7%N, node0 (firstn 2 exNew) 2000 (skipn 2 exNew))] [] in
   let '(y, ts) := y_run y0 [CConnect 7; CRun 20; CAnnounce 7 1 true; CRun 20] in
-  final_tip y = Some 3%N /\ quiescent y = true /\
-  (exists n, aget 7%N (y_nodes y) = Some n /\ map s_id (n_chain n) = [2; 3; 4]%N /\ n_open n = true) /\
-  nth 3 ts [] <> [] /\ concat (map (fun x => snd (fst x)) (nth 3 ts [])) = [].
-Proof. exact single_peer_announce_refuted. Qed.
+  final_tip y = Some 4%N /\ quiescent y = true /\
+  concat (map (fun x => snd (fst x)) (nth 3 ts [])) = [GetHeaders 7 [3; 2; 1]%N 4%N; GetHeaders 7 [4; 3; 2; 1]%N 0%N].
+Proof. exact ex_announce_now_followed. Qed.
 
 Theorem C06_lagging_sync_peer_refuted :
   let cfg := {| c_cps := [(1, 2%N)]; c_disable := false; c_forb := []; c_now := 1800000000 |} in
@@ -138,6 +197,10 @@ Print Assumptions C06_fork_one_reply.
 Print Assumptions C06_stops_when_no_longest.
 Print Assumptions C06_prefix_store_good.
 Print Assumptions C06_catchup_example.
-Print Assumptions C06_disable_checkpoints_refuted.
-Print Assumptions C06_single_peer_announce_refuted.
+Print Assumptions C06_catchup_linear_enabled.
+Print Assumptions C06_catchup_linear_disabled.
+Print Assumptions C06_announce_inv.
+Print Assumptions C06_announce_headers.
+Print Assumptions C06_disabled_now_syncs_example.
+Print Assumptions C06_announce_now_followed_example.
 Print Assumptions C06_lagging_sync_peer_refuted.
